@@ -86,6 +86,7 @@ func membershipBurst(r *rand.Rand, st *ccStats, hid int) string {
 		return ""
 	}
 	h.rig = rig
+	defer rig.abandon()
 	st.Bursts++
 	st.Histories++
 	h.line("tb new seats=%d min=2 rule=default mode=ct blind=%s h=%d", h.maxSeat, blindStr(&blind), hid)
@@ -530,6 +531,7 @@ func actionBurst(r *rand.Rand, st *ccStats, hid int) string {
 		return ""
 	}
 	h.rig = rig
+	defer rig.abandon()
 	st.ActBursts++
 	st.Histories++
 	seats := r.Perm(9)
